@@ -10,6 +10,7 @@ C12 driver: one JSON request per line on stdin, one JSON answer per line on stdo
          flags: "documented","scoped","accepted","clean","spec" (SpecTerm of the model's own result)
   {"op":"spec","expr":E,"leaves":[[text,ty],..],"obs":{"text":..,"declTy":..,"incs":[..]}|null}
       -> {"holds":b,"why":s}
+  {"op":"placement","expr":E,"leaves":[[text,ty],..],"obs":{"code":text,"incs":[..]}|null} -> {"holds":b,"why":s}   (PlacementSpec)
   {"op":"package","expr":E,"backend":"atlas"|"cms_aod"|"cms_miniaod","injects":[{"header_includes":[..],"body_includes":[..]}..],"hdrCalls":b}
       -> {"files":[{"name":..,"incs":[..],"calls":b}..],"holds":b} | {"err":class}     (model: tr + packageFiles)
   {"op":"pkgspec","files":[{"name":..,"incs":[..],"calls":b}..]} -> {"holds":b,"culprit":name|null}   (PackageSpec on observed files)
@@ -150,6 +151,20 @@ def handle (line : String) : String :=
                          incs := ← strList (← o.getObjVal? "incs") })
           | .error _ => pure none
         let (h, why) := SpecEmit cfg Gen.readmeFunctions leaves e obs
+        pure (Json.mkObj [("holds", h), ("why", why)])
+      else if op == "placement" then
+        let e ← parseExpr (← j.getObjVal? "expr")
+        let lv ← (← j.getObjVal? "leaves").getArr?
+        let leaves ← lv.toList.mapM fun p => do
+          let a ← p.getArr?
+          match a.toList with
+          | [t, ty] => pure ((← t.getStr?), (← ty.getStr?))
+          | _ => throw "leaf must be [text, type]"
+        let obs : Option (String × List String) ← match j.getObjVal? "obs" with
+          | .ok (.null) => pure none
+          | .ok o => do pure (some ((← (← o.getObjVal? "code").getStr?), (← strList (← o.getObjVal? "incs"))))
+          | .error _ => pure none
+        let (h, why) := PlacementSpec cfg Gen.readmeFunctions leaves e obs
         pure (Json.mkObj [("holds", h), ("why", why)])
       else if op == "package" then
         let e ← parseExpr (← j.getObjVal? "expr")
